@@ -21,16 +21,17 @@ export CARGO_TARGET_DIR=${SEED_CT:-/tmp/confirm-target}
 DEMO_PATH=$(grep -oE 'crates/[A-Za-z0-9_./-]+\.rs' $OUT/demo_path.txt | head -1)
 DEMO_TEST=$(basename $DEMO_PATH .rs)
 DEMO_CRATE=$(echo $DEMO_PATH | sed -E 's#crates/([^/]+)/.*#\1#')
+DEMO_KIND=--test; echo $DEMO_PATH | grep -q "/examples/" && DEMO_KIND=--example
 echo "demo: $DEMO_PATH crate=$DEMO_CRATE test=$DEMO_TEST" >> $EV
 cd $WT
 if ! git apply --check $OUT/patch.diff 2>>$EV; then echo "CONFIRM patch-does-not-apply" | tee -a $EV; exit 3; fi
 # demo without patch
 mkdir -p $(dirname $DEMO_PATH); cp $OUT/demo.rs $DEMO_PATH
 DEMO_ENV=""; [ -f $SRC/demo_env.txt ] && DEMO_ENV="$(cat $SRC/demo_env.txt)" && cp $SRC/demo_env.txt $OUT/
-env $DEMO_ENV cargo test --offline -p $DEMO_CRATE --test $DEMO_TEST > /tmp/confirm-demo0.log 2>&1; d0=$?
+env $DEMO_ENV cargo test --offline -p $DEMO_CRATE $DEMO_KIND $DEMO_TEST > /tmp/confirm-demo0.log 2>&1; d0=$?
 echo "demo without patch: exit $d0 : $(grep -E '^test result' /tmp/confirm-demo0.log | tail -1)" | tee -a $EV
 git apply $OUT/patch.diff
-env $DEMO_ENV cargo test --offline -p $DEMO_CRATE --test $DEMO_TEST > /tmp/confirm-demo1.log 2>&1; d1=$?
+env $DEMO_ENV cargo test --offline -p $DEMO_CRATE $DEMO_KIND $DEMO_TEST > /tmp/confirm-demo1.log 2>&1; d1=$?
 echo "demo with patch: exit $d1 : $(grep -E '^test result' /tmp/confirm-demo1.log | tail -1)" | tee -a $EV
 rm -f $DEMO_PATH; rmdir $(dirname $DEMO_PATH) 2>/dev/null
 suite=$(cargo test --workspace --no-fail-fast --offline 2>&1)
